@@ -20,9 +20,21 @@ def build(cfg):
     r2 = Signal(name="r2", init=1, reset_less=True)
     r3 = Signal(name="r3", init=1)
     s = Module()
+    decl = cfg.get("decl", "top")
+    outer = top                     # the module holding the logic outside the wrappers (r3)
+    if decl == "shadow":            # the top level declares idle namesakes; the real domains are declared where they are used
+        outer = Module()
+        top.submodules.outer = outer
     for name in ("A", "B"):         # declared at the top level; with decl = "inner" the wrapped submodule declares the
-        setattr(top.domains, name, cds[name])      # same ClockDomain objects once more itself (domains do not propagate
-        if cfg.get("decl") == "inner":             # upwards, so the top level needs its declaration in any case)
+        if decl == "shadow":        # same ClockDomain objects once more itself (domains do not propagate upwards, so the
+            dc = cfg[name]          # top level needs its declaration in any case)
+            setattr(top.domains, name, ClockDomain(name, clk_edge=dc["edge"], reset_less=dc["rst"] == "none",
+                                                   async_reset=dc["rst"] == "async"))
+            setattr(s.domains, name, cds[name])
+            setattr(outer.domains, name, cds[name])
+            continue
+        setattr(top.domains, name, cds[name])
+        if decl == "inner":
             setattr(s.domains, name, cds[name])
     s.d[cfg["d1"]] += r1.eq(d)
     s.d[cfg["d2"]] += r2.eq(d)
@@ -50,11 +62,11 @@ def build(cfg):
         else:
             raise ValueError(w)
     top.submodules.s = wrapped
-    top.d.A += r3.eq(d)
+    outer.d.A += r3.eq(d)
     # keep both domains alive even when every register was renamed into the other one
     ka, kb = Signal(name="ka"), Signal(name="kb")
-    top.d.A += ka.eq(~ka)
-    top.d.B += kb.eq(~kb)
+    outer.d.A += ka.eq(~ka)
+    outer.d.B += kb.eq(~kb)
     sigs = {"d": d, "c1": c["c1"], "c2": c["c2"], "r1": r1, "r2": r2, "r3": r3, "r4": r4, "mw": mem.data[0], "mr": mr, "mt": mt,
             "clkA": cds["A"].clk, "clkB": cds["B"].clk}
     if cfg["A"]["rst"] != "none":
